@@ -648,7 +648,9 @@ func TestC17(t *testing.T) {
 		cases = LoadReplayCases[c17Case](t, rf)
 	} else {
 		cases = append(cases, LoadCorpus[c17Case](t, "C17")...)
-		r := NewRng(EnvSeed())
+		// h.NewRng's streams for seeds k and k+1 are the same sequence shifted by one draw; re-seed
+		// from the first (mixed) output so that different VERIF_SEEDs give unrelated streams
+		r := NewRng(NewRng(EnvSeed()).U64())
 		cases = append(cases, c17Boundary(r)...)
 		n := EnvInt("VERIF_N", 120)
 		for i := 0; i < n; i++ {
